@@ -18,6 +18,11 @@ def run(ctx):
     RT.grams_from_whole_words(ctx, "R03.d")
     RT.candidate_cap(ctx, "R03.e", minimum=1)
     RT.every_posting_counted(ctx, "R03.e")
+    RT.counters(ctx, "R03.e")
+    RT.only_store_add_feeds_index(ctx, "R03.e")
+    # record and query are folded alike: every reducible letter is reduced in both cases (normalisation precedes lower-casing)
+    from . import r_lang as RL
+    RL.table_rules(ctx, "R03.j", "R03.j", "R03.j", "R03.j", "R03.j")
     RT.unfinished_prefix_clip(ctx, "R03.f")
     RK.class_predicates(ctx, "R03.g")
     RK.text_methods_use_chars(ctx, "R03.g")
